@@ -9,7 +9,7 @@
    (Band/Rx1Spec.v, Band/Regional.v); [c12_known_cells] = the recorded findings
    (known/C12.json -> LWGen.KnownGen).  All arguments range over all of Z. *)
 From Coq Require Import List ZArith Bool String.
-From LW Require Import Base.Outcome Band.Types Band.Lookup Band.Regional Band.Rx1Spec Band.Rx1Proofs.
+From LW Require Import Base.Outcome Band.Types Band.Lookup Band.Regional Band.Rx1Spec Band.Rx1Checks Band.Rx1BaseProofs Band.Rx1Proofs.
 From LWGen Require Import BandGen KnownGen.
 Import ListNotations.
 Open Scope Z_scope.
